@@ -47,7 +47,10 @@ func (w *dnsWorld) c10Expected() map[[4]uint32]bpfDomainRouting {
 		if !ok {
 			return true
 		}
-		bm := w.bitmapOf(key.name)
+		bm, known := w.entryBitmap[c]
+		if !known {
+			bm = w.bitmapOf(key.name)
+		}
 		_, ips := w.decodeAnswers(c.Answer)
 		for _, ip := range ips {
 			if ip.IsUnspecified() {
@@ -219,6 +222,9 @@ func dnsScenarioC10(w *dnsWorld) {
 			op := &dnsOp{cli: i, idx: len(w.ops), id: uint16(100 + len(w.ops)), viaUDP: T.Chance(1, 4)}
 			if cur := w.sortedEntries(); len(cur) > 0 && T.Chance(2, 3) {
 				e := cur[T.Choose(len(cur))]
+				if i == 0 && w.focus != nil {
+					e = w.focus
+				}
 				op.name, op.qtype = e.key.name, e.key.qtype
 			} else {
 				op.name, op.qtype = w.names[T.Choose(len(w.names))], dnsQtypes[T.Pick(4, 3, 1)]
@@ -262,7 +268,25 @@ func dnsScenarioC10(w *dnsWorld) {
 			w.c10Quiescent(fmt.Sprintf("after round %d", r))
 		}
 		reloadOK := !w.pendingWork() && w.fwdInFlight() == 0
-		switch T.Pick(12, 2, 1) {
+		// one draw over 15 values as before (recorded tapes keep their length): 0-7 nothing,
+		// 8-11 a reload that only changes the domain rules (same DNS rules, next generation of
+		// the name -> bitmap table), 12-13 a reload that also swaps the DNS request rules, 14 a
+		// new generation with a replayed cache
+		act := 0
+		switch v := T.Choose(15); {
+		case v >= 14:
+			act = 2
+		case v >= 12:
+			act = 1
+		case v >= 8:
+			act = 3
+		}
+		switch act {
+		case 3:
+			s.Fault("reload-domain-rules")
+			rs := w.rules
+			w.env("reload", func() { w.reloadReuse(rs) })
+			s.RunUntil(func() bool { return w.envTasks == 0 }, 5)
 		case 1:
 			// swap the request rules (a name may become rejected, or stop being rejected)
 			rs := dnsGenRuleSet(T, w.rules.tags, w.names, false, true)
@@ -334,12 +358,75 @@ func (w *dnsWorld) c10ReloadRestore() {
 	s.Fault("reload-clone-restore")
 	s.Notef("reload: new generation, %d entries replayed", len(entries))
 	w.track.restoring, w.track.frozen = true, true
+	w.bitmapGen++ // the new generation's domain rules
 	nc.RestoreReloadCache(entries, w.plane.routingMatcher.domainMatcher.MatchDomainBitmap, time.Now())
+	for _, v := range entries {
+		if v != nil {
+			w.entryBitmap[v] = w.bitmapOf(w.nameIndex(v.GetFqdn())) // RestoreReloadCache re-matches every restored entry
+		}
+	}
+	s.Notef("domain rules generation %d", w.bitmapGen)
 	w.plane.dnsRouting, w.plane.dnsController = routing, nc
 	w.ctl, w.track.ctl = nc, nc
 	w.track.frozen = false
 	w.track.scan()
 	w.track.restoring = false
+}
+
+func dnsZeroBitmap(b []uint32) bool {
+	for _, x := range b {
+		if x != 0 {
+			return false
+		}
+	}
+	return true
+}
+
+// c10OverlapProbes: reach probes for the overlap histories the statement quantifies
+// over (an owner re-synced in place with another bitmap while a second live owner
+// with a non-zero bitmap lists one of its addresses).
+func (w *dnsWorld) c10OverlapProbes(e *dnsEntryObs) {
+	nb := w.entryBitmap[e.ptr]
+	sharesWithOther := false
+	for _, o := range w.track.cur {
+		if o == e || o.raw == e.raw || dnsZeroBitmap(w.entryBitmap[o.ptr]) {
+			continue
+		}
+		for _, x := range o.ips {
+			for _, y := range e.ips {
+				if x == y && !x.IsUnspecified() {
+					sharesWithOther = true
+				}
+			}
+		}
+	}
+	if !sharesWithOther {
+		return
+	}
+	w.s.Probe("dns.c10-insert-sharing-an-address-with-a-live-owner")
+	var old *dnsEntryObs
+	for i := len(w.track.hist) - 1; i >= 0; i-- {
+		if h := w.track.hist[i]; h != e && h.raw == e.raw {
+			old = h
+			break
+		}
+	}
+	if old == nil {
+		return
+	}
+	ob := w.entryBitmap[old.ptr]
+	if old.replaced && old.removeStep == e.insertStep {
+		switch {
+		case dnsZeroBitmap(nb) && !dnsZeroBitmap(ob):
+			w.overlapZeroed[e.raw] = true
+			w.s.Probe("dns.c10-owner-replaced-in-place-bitmap-became-zero")
+		case !dnsZeroBitmap(nb) && dnsZeroBitmap(ob):
+			w.s.Probe("dns.c10-owner-replaced-in-place-bitmap-became-non-zero")
+		}
+	}
+	if !dnsZeroBitmap(nb) && w.overlapZeroed[e.raw] {
+		w.s.Probe("dns.c10-owner-non-zero-again-after-in-place-zero")
+	}
 }
 
 var _ = netip.Addr{}
